@@ -130,7 +130,7 @@ class Builder:
                 lab, props = blk[3]
                 text = '\n'.join(ln + ' /*@%s@*/' % lab for ln in text.split('\n'))
                 self._block_labels = getattr(self, '_block_labels', {}); self._block_labels[lab] = props
-            if pos in ('loop_start', 'loop_end', 'loop_before'):
+            if pos in ('loop_start', 'loop_end', 'loop_before', 'loop_after'):
                 # anchor is the 1-based ordinal of the `for` loop (in source order, after R2 naming: `in itN:`)
                 i = L.find_code(body, ' in it%d: ' % anchor)
                 if i < 0: raise X.LostAnchor('%s: loop %s' % (where, anchor))
@@ -142,7 +142,10 @@ class Builder:
                     if body[ls:bo].strip() == '': break
                     j = L.match_close(body, bo) + 1
                 bc = L.match_close(body, bo)
-                if pos == 'loop_before':
+                if pos == 'loop_after':
+                    le = body.find('\n', bc)
+                    body = body[:le + 1] + text + '\n' + body[le + 1:]
+                elif pos == 'loop_before':
                     ls = body.rfind('\n', 0, i) + 1
                     body = body[:ls] + text + '\n' + body[ls:]
                 elif pos == 'loop_start':
@@ -213,7 +216,7 @@ class Builder:
         bl = getattr(self, '_block_labels', {})
         if not bl: return
         for ln in range(first, self.lineno()):
-            mm = re.search(r'/\*@([^@]+)@\*/', self.lines[ln - 1])
+            mm = re.search(r'/\*@(.+?)@\*/', self.lines[ln - 1])
             if mm and mm.group(1) in bl:
                 self.linemap[ln] = (fname, mm.group(1), bl[mm.group(1)])
         for lab, props in bl.items():
